@@ -109,6 +109,7 @@ impl<'a> UnitRun<'a> {
             return None;
         }
         let r = run_job(spec);
+        self.res.fold_job(&r);
         self.res.bump("evaluations", 1);
         if spec.faults.is_empty() {
             self.res.bump("fault_free_runs", 1);
